@@ -349,7 +349,7 @@ fn direct(ctx: &Ctx) {
 
 fn arrival(ctx: &Ctx) {
     // (n, deviation bound or usize::MAX for all)
-    let plans: Vec<(usize, usize)> = if ctx.tier.thorough() { vec![(5, usize::MAX), (6, usize::MAX), (7, 4), (11, 2), (16, 2), (48, 2)] } else { vec![(5, 3), (6, 2), (11, 1), (16, 1), (48, 0)] };
+    let plans: Vec<(usize, usize)> = if ctx.tier.thorough() { vec![(5, usize::MAX), (6, usize::MAX), (7, 3), (11, 2), (16, 2), (48, 1)] } else { vec![(5, 3), (6, 2), (11, 1), (16, 1), (48, 0)] };
     let mut summary = vec![];
     for (n, bound) in plans {
         let cfg = ExecCfg { n, n_collect: 4, n_discard: 0, mode: Mode::Arrival, kill_reporter_at: None, idle_bound: n.div_ceil(5) + 2, script: None, nuts: false };
